@@ -138,6 +138,61 @@ class Relation:
         return "%s|%s %s %s := ..." % (self.array, self.fam, self.kind, self.dom)
 
 
+class View2(V2):
+    """a contiguous slice of a layout array bound to a local (`row = p[j*nx:(j+1)*nx]`, `fy = flux[fshift:]`): as a value it is
+    the slice; subscripted again with a contiguous slice it is the corresponding slice of the ARRAY (numpy views compose)"""
+    def __init__(self, v, arr, sl):
+        V2.__init__(self, v.expr, v.space)
+        self.arr, self.sl = arr, sl
+
+    def _compose(self, idx, interp):
+        if self.arr.vec:
+            if not (isinstance(idx, tuple) and len(idx) == 2 and (idx[0] is Ellipsis or idx[0] == slice(None, None, None))):
+                raise AnalysisError("view of a vector layout array indexed without a leading ':'")
+            idx = idx[1]
+        if not (isinstance(idx, slice) and idx.step is None):
+            raise AnalysisError("view of a layout array subscripted with something else than a contiguous slice")
+        A = self.arr.eng.alg
+        lift = lambda v: None if v is None else interp.lift(v)
+        s0, e0 = lift(self.sl.start), lift(self.sl.stop)
+        s0 = A.const(0) if s0 is None else s0
+
+        loops = self.arr.eng.loops
+
+        def nonneg(v):
+            if A.sign(v) in ("+", ">=0", "0"):
+                return True
+            # a sum of products of positive sizes and loop counters that start at a non-negative bound, positive coefficients
+            return (not v.den and all(c > 0 for c in v.num.values())
+                    and all(A.atoms[a].positive or (a in loops and A.sign(loops[a][1]) in ("+", ">=0", "0")) for m in v.num for a, e_ in m))
+
+        def neg(v):
+            return A.sign(v) == "-"
+        s1, e1 = lift(idx.start), lift(idx.stop)
+        if s1 is None:
+            ns = s0
+        elif nonneg(s1):
+            ns = A.add(s0, s1)
+        else:
+            raise AnalysisError("view of a layout array: start of the inner slice is not provably non-negative")
+        if e1 is None:
+            ne = e0
+        elif nonneg(e1):
+            ne = A.add(s0, e1)
+        elif neg(e1) and e0 is not None:
+            ne = A.add(e0, e1)
+        else:
+            raise AnalysisError("view of a layout array: stop of the inner slice is not decided")
+        new = slice(ns, ne, None)
+        return (slice(None, None, None), new) if self.arr.vec else new
+
+    def _fd_getitem(self, idx, interp):
+        return self.arr._fd_getitem(self._compose(idx, interp), interp)
+
+    def _fd_setitem(self, idx, value, interp):
+        return self.arr._fd_setitem(self._compose(idx, interp), value, interp)
+
+
 class A2:
     """array in the 2D layout; role in {'cell', 'xi', 'yj', 'ff'}"""
     def __init__(self, eng, name, role, vec=False, zero=False):
@@ -153,8 +208,12 @@ class A2:
         idx = self._strip(idx)
         fam, I, J, space = self.eng.decode(self, idx, interp)
         if self.zero and not self.rels:
-            return V2(self.eng.alg.const(0), space)
-        return V2(self.eng.atom(self.name, fam, I, J), space)
+            v = V2(self.eng.alg.const(0), space)
+        else:
+            v = V2(self.eng.atom(self.name, fam, I, J), space)
+        if isinstance(idx, slice) and idx.step is None:
+            return View2(v, self, idx)
+        return v
 
     def _fd_setitem(self, idx, value, interp):
         idx = self._strip(idx)
